@@ -238,6 +238,21 @@ class RxScn(Scenario):
                 if len(got) == len(exp[0]) and len(rns) > len(exp[0]) // self.limit + 1:
                     out.append(('C20.request-limit', 'C20.request-limit | %s | too-many-request-n' % tag, '%d REQUEST_N frames for %d elements at limit %d' % (len(rns), len(exp[0]), self.limit)))
             out += [(r, s + ' | ' + tag, d) for r, s, d in monitors.credit(log, 's0', prop='C20')]
+            # the request limit bounds the outstanding demand in both directions: credit granted - elements received <= limit
+            for ep, who in (('c0', 'requester'), ('s0', 'responder')):
+                if self.limit >= MAXN or (ep == 's0' and self.kind != 'channel'):
+                    continue
+                granted, got_n, worst = 0, 0, 0
+                for ev in log:
+                    if ev[0] == 'tx' and ev[1] == ep and ev[2].sid == (req[0].sid if req else 1):
+                        if ev[2].type in (R.REQUEST_STREAM, R.REQUEST_CHANNEL, R.REQUEST_N) and not (ep == 's0' and ev[2].type != R.REQUEST_N):
+                            granted += ev[2].request_n
+                    elif ev[0] == 'rx' and ev[1] == ep and ev[2].sid == (req[0].sid if req else 1) and ev[2].type == R.PAYLOAD and ev[2].next and not ev[2].follows:
+                        got_n += 1
+                    worst = max(worst, granted - got_n)
+                if worst > self.limit:
+                    out.append(('C20.request-limit', 'C20.request-limit | %s | outstanding-demand | %s' % (tag, who),
+                                '%s had %d elements of demand outstanding with request limit %d' % (who, worst, self.limit)))
             if self.source == 'bp':
                 credits = [ev[2].request_n for ev in log if ev[0] == 'rx' and ev[1] == 's0' and ev[2].type in (R.REQUEST_STREAM, R.REQUEST_CHANNEL, R.REQUEST_N) and ev[2].sid == (req[0].sid if req else 1)]
                 asked = w.objs.get('asked', [])
@@ -291,7 +306,7 @@ def make_units(tier):
                                     continue
                                 flavour = 'tcp' if n % 3 else 'msg'
                                 units.append(dict(api=api, kind=kind, k=k, limit=limit, err=err, source=source, dispose=dispose,
-                                                  up=(2 if kind == 'channel' and n % 2 else (0 if kind == 'channel' else 0)), flavour=flavour, empty=False, bound=bound))
+                                                  up=((5 if n % 4 == 1 else 3) if kind == 'channel' and n % 2 else 0), flavour=flavour, empty=False, bound=bound))
         for kind, empty in (('rr', False), ('rr', True), ('fnf', False), ('push', False)):
             for flavour in ('tcp', 'msg'):
                 units.append(dict(api=api, kind=kind, k=0, limit=MAXN, err=None, source='plain', dispose=False, up=0, flavour=flavour, empty=empty, bound=bound))
